@@ -885,8 +885,7 @@ func (req *IdpAuthnRequest) MakeAssertionEl() error {
 	{
 		doc := etree.NewDocument()
 		doc.SetRoot(signedAssertionEl)
-		doc.WriteSettings = xmlWriteSettings
-		signedAssertionBuf, err = doc.WriteToBytes()
+		signedAssertionBuf, err = xmlToBytes(doc)
 		if err != nil {
 			return err
 		}
@@ -930,8 +929,7 @@ func (req *IdpAuthnRequest) PostBinding() (IdpAuthnRequestForm, error) {
 
 	doc := etree.NewDocument()
 	doc.SetRoot(req.ResponseEl)
-	doc.WriteSettings = xmlWriteSettings
-	responseBuf, err := doc.WriteToBytes()
+	responseBuf, err := xmlToBytes(doc)
 	if err != nil {
 		return form, err
 	}
@@ -1030,8 +1028,7 @@ func (req *IdpAuthnRequest) getSPEncryptionCert() (*x509.Certificate, error) {
 func unmarshalEtreeHack(el *etree.Element, v interface{}) error {
 	doc := etree.NewDocument()
 	doc.SetRoot(el)
-	doc.WriteSettings = xmlWriteSettings
-	buf, err := doc.WriteToBytes()
+	buf, err := xmlToBytes(doc)
 	if err != nil {
 		return err
 	}
